@@ -18,7 +18,7 @@ use cipher::{
 use core::fmt;
 use core::marker::PhantomData;
 
-pub const CAP: usize = 40;
+pub const CAP: usize = 72;
 pub const MAXB: usize = 32;
 
 pub struct Table {
